@@ -10,7 +10,7 @@
     already due. *)
 From Coq Require Import List Arith Bool Lia NArith.
 From CM Require Import Maintain.Model Maintain.Spec Maintain.Base Maintain.Inv Maintain.Proofs
-  Maintain.SpecSound Maintain.XModel Maintain.XProofs Maintain.XSound.
+  Maintain.SpecSound Maintain.XModel Maintain.XProofs Maintain.XSound Maintain.Issuers Maintain.IssuersProofs.
 From CM Require Maintain.Check.
 From CM Require Gen.Consts.
 Import ListNotations.
@@ -358,6 +358,30 @@ Theorem C05_agreeing_case_satisfies_spec : forall c : Check.case,
 Proof. exact agreeing_case_satisfies_spec. Qed.
 Print Assumptions C05_agreeing_case_satisfies_spec.
 
+(** ** Several issuers ([Maintain.Issuers]). [Config.Issuers] is a chain: an attempt takes the
+    certificate of the first issuer that works and fails only when all fail — that chain is the
+    model's issuer. A certificate is saved under the key of the issuer that produced it, so
+    storage holds up to one bundle per issuer and name, and [loadCertResourceAnyIssuer] returns the
+    most recently issued of them ([mload]). In every reachable state, and for EVERY assignment of
+    issuer keys to the saves that built the storage ([tags]), that is exactly what the model
+    calls the stored certificate ([stored]): so adoption of a certificate renewed elsewhere (also
+    under another issuer's key), "renewed once" and "the new certificate is the one served" —
+    all stated with [stored] above — hold with bundles under several issuers' keys, e.g. after a
+    renewal that fell over to the backup issuer and left the first issuer's old bundle behind. *)
+Theorem C05_most_recent_bundle_is_the_stored_one : forall od idue s h tags n,
+  WF od s -> stack_ordered (store s) ->
+  length tags = length (store (run od idue s h)) ->
+  mload (concretize (store (run od idue s h)) tags) n = stored (store (run od idue s h)) n.
+Proof. exact reachable_mload. Qed.
+Print Assumptions C05_most_recent_bundle_is_the_stored_one.
+
+Theorem C05_issuer_chain_fails_iff_all_fail : forall order fails,
+  (first_working order fails = None <-> forall i, In i order -> fails i = true) /\
+  (forall i, first_working order fails = Some i ->
+     fails i = false /\ exists a b, order = a ++ i :: b /\ forall j, In j a -> fails j = true).
+Proof. intros order fails. split; [apply first_working_none | apply first_working_some]. Qed.
+Print Assumptions C05_issuer_chain_fails_iff_all_fail.
+
 (** ** Facts about the source text the model rests on, re-read from the working tree by the
     translator on every run ([harness/cmd/consts/c05.go]): a pass scans under the cache's read lock
     and acts (reload loop, then renewal loop) after releasing it; the scan skips unmanaged
@@ -520,4 +544,20 @@ Proof.
   cbn zeta. split.
   - repeat (apply Forall_cons; [cbn; try exact I; try lia |]). apply Forall_nil.
   - split; vm_compute; reflexivity.
+Qed.
+
+(** hypotheses of [C05_most_recent_bundle_is_the_stored_one]: the renewal of name 0 fell over to the
+    backup issuer (key 1) and the first issuer's (key 0) old bundle [c0] is still there; an
+    external renewal then went under key 0 again *)
+Example ex_two_issuers :
+  stack_ordered (store (ex_stale [])) /\
+  let s' := run ex_od false (ex_stale []) [PassScan 1; PassAct 1; JobStep 0 0; JobStep 0 0; JobStep 0 0] in
+  let ms := concretize (store s') [1; 0; 0; 0] in
+  bundles ms 0 = [Cert 5 0 [] false true; c0] /\ mload ms 0 = Some (Cert 5 0 [] false true) /\
+  stored (store s') 0 = Some (Cert 5 0 [] false true) /\
+  mload (concretize (store (run ex_od false s' [ExtRenew 0 []])) [0; 1; 0; 0; 0]) 0 = Some (Cert 6 0 [] false true).
+Proof.
+  split.
+  - cbn. repeat split; intros d H; repeat (destruct H as [H|H]; [inversion H|]); destruct H.
+  - vm_compute. repeat split.
 Qed.
